@@ -21,7 +21,7 @@ from bibtexparser.middlewares import names as N
 from bibtexparser.model import Entry, Field
 from bibtexparser.library import Library
 
-SIGMA = "Ab ,~{}\\"
+SIGMA = "Ab ,~{}\\\x0b"
 SIGMA2 = "Ab ,{}\\nd"
 
 
